@@ -3456,7 +3456,12 @@ let vi_first_print_pos u seg0 b =
   | [] -> Ok (Some O)
   | c :: _ ->
     if u.u_is_whitespace c
-    then next_word_pos u seg0 b O AtStart WBig (S O)
+    then (match next_word_pos u seg0 b O AtStart WBig (S O) with
+          | Ok a ->
+            (match a with
+             | Some n0 -> Ok (Some n0)
+             | None -> Ok (Some O))
+          | Panic -> Panic)
     else Ok (Some O)
 
 (** val copy :
